@@ -2,9 +2,8 @@ SPECIFICATION Spec
 CONSTANTS
   N = 3
   T = 1
-  K = 2
   CorruptSets <- Corrupt3
-  Kinds <- AllKinds
-  Fixes <- NoFixes
-  FullOrder = FALSE
-INVARIANTS TypeOK Agreement
+  Classes <- All1asc
+  FixSets <- OnlyAsIs
+  Plans <- NoPlan
+INVARIANTS TypeOK Agreement NoHonestPunished NoAbort
